@@ -687,9 +687,20 @@ pub proof fn lemma_redc_injective(a: int, b: int)
 }
 
 // ---- inv: binary extended Euclid on the Montgomery word (partial correctness) -------------------------
-/// a * xn == v (mod P) and d * xn == -u (mod P), with explicit witnesses
-pub open spec fn inv_rel(xn: int, u: int, v: int, a: int, d: int, ka: int, kd: int) -> bool {
-    a * xn == v + ka * P && d * xn + u == kd * P
+/// ghost state of the Euclid loops: witnesses of the two congruences and the iteration budget
+pub struct G {
+    pub ka: int,
+    pub kd: int,
+    pub k: int,
+}
+
+/// a * xn == v and d * xn == -u (mod P) with explicit witnesses; every subtraction shrinks u + v
+#[verifier::opaque]
+pub open spec fn g_inv(xn: int, u: int, v: int, a: int, d: int, g: G) -> bool {
+    &&& 0 < xn < P
+    &&& a * xn == v + g.ka * P
+    &&& d * xn + u == g.kd * P
+    &&& 0 <= g.k && 0 <= u && 0 <= v && g.k + u + v <= 0x1_0000_0000_0000_0000int
 }
 
 /// k * P == 2 * t with P odd  ==>  k even
@@ -708,7 +719,6 @@ proof fn lemma_even_factor(k: int, t: int)
     }
 }
 
-/// halving step: 2 * h is the (evened) accumulator, 2 * w the even operand
 proof fn lemma_halve_d(xn: int, h: int, w: int, kd: int)
     requires (2 * h) * xn + 2 * w == kd * P
     ensures kd % 2 == 0, h * xn + w == (kd / 2) * P
@@ -716,7 +726,6 @@ proof fn lemma_halve_d(xn: int, h: int, w: int, kd: int)
     assert((2 * h) * xn + 2 * w == 2 * (h * xn + w)) by (nonlinear_arith);
     lemma_even_factor(kd, h * xn + w);
     let q = kd / 2;
-    assert(kd == 2 * q);
     assert(kd * P == 2 * (q * P)) by (nonlinear_arith) requires kd == 2 * q;
 }
 
@@ -727,8 +736,110 @@ proof fn lemma_halve_a(xn: int, h: int, w: int, ka: int)
     assert((2 * h) * xn - 2 * w == 2 * (h * xn - w)) by (nonlinear_arith);
     lemma_even_factor(ka, h * xn - w);
     let q = ka / 2;
-    assert(ka == 2 * q);
     assert(ka * P == 2 * (q * P)) by (nonlinear_arith) requires ka == 2 * q;
+}
+
+proof fn lemma_g_init(xn: int)
+    requires 0 < xn < P
+    ensures g_inv(xn, if xn % 2 == 1 { xn } else { xn + P }, P, 0, P - 1, G { ka: -1, kd: if xn % 2 == 1 { xn } else { xn + 1 }, k: 0 })
+{
+    reveal(g_inv);
+    lemma_consts();
+    assert(0 * xn == P + (-1) * P) by (nonlinear_arith);
+    assert((P - 1) * xn + xn == xn * P) by (nonlinear_arith);
+    assert((P - 1) * xn + (xn + P) == (xn + 1) * P) by (nonlinear_arith);
+}
+
+proof fn lemma_g_k(xn: int, u: int, v: int, a: int, d: int, g: G)
+    requires g_inv(xn, u, v, a, d, g)
+    ensures 0 <= g.k <= 0x1_0000_0000_0000_0000int, 0 <= u <= 0x1_0000_0000_0000_0000int, 0 <= v <= 0x1_0000_0000_0000_0000int
+{
+    reveal(g_inv);
+}
+
+/// u -= v; d += a
+proof fn lemma_g_sub_u(xn: int, u: int, v: int, a: int, d: int, g: G) -> (h: G)
+    requires g_inv(xn, u, v, a, d, g), u > v, v >= 1
+    ensures g_inv(xn, u - v, v, a, d + a, h), h == (G { kd: g.kd + g.ka, k: g.k + 1, ..g })
+{
+    reveal(g_inv);
+    assert((d + a) * xn + (u - v) == (g.kd + g.ka) * P) by (nonlinear_arith)
+        requires a * xn == v + g.ka * P, d * xn + u == g.kd * P;
+    G { kd: g.kd + g.ka, k: g.k + 1, ..g }
+}
+
+/// v -= u; a += d
+proof fn lemma_g_sub_v(xn: int, u: int, v: int, a: int, d: int, g: G) -> (h: G)
+    requires g_inv(xn, u, v, a, d, g), u <= v, u >= 1
+    ensures g_inv(xn, u, v - u, a + d, d, h), h == (G { ka: g.ka + g.kd, k: g.k + 1, ..g })
+{
+    reveal(g_inv);
+    assert((a + d) * xn == (v - u) + (g.ka + g.kd) * P) by (nonlinear_arith)
+        requires a * xn == v + g.ka * P, d * xn + u == g.kd * P;
+    G { ka: g.ka + g.kd, k: g.k + 1, ..g }
+}
+
+/// d += m / a += m
+proof fn lemma_g_add_p_d(xn: int, u: int, v: int, a: int, d: int, g: G) -> (h: G)
+    requires g_inv(xn, u, v, a, d, g)
+    ensures g_inv(xn, u, v, a, d + P, h), h == (G { kd: g.kd + xn, ..g })
+{
+    reveal(g_inv);
+    assert((d + P) * xn + u == (g.kd + xn) * P) by (nonlinear_arith) requires d * xn + u == g.kd * P;
+    G { kd: g.kd + xn, ..g }
+}
+
+proof fn lemma_g_add_p_a(xn: int, u: int, v: int, a: int, d: int, g: G) -> (h: G)
+    requires g_inv(xn, u, v, a, d, g)
+    ensures g_inv(xn, u, v, a + P, d, h), h == (G { ka: g.ka + xn, ..g })
+{
+    reveal(g_inv);
+    assert((a + P) * xn == v + (g.ka + xn) * P) by (nonlinear_arith) requires a * xn == v + g.ka * P;
+    G { ka: g.ka + xn, ..g }
+}
+
+/// u >>= 1; d >>= 1 (both even)
+proof fn lemma_g_halve_u(xn: int, u: int, v: int, a: int, d: int, g: G) -> (h: G)
+    requires g_inv(xn, u, v, a, d, g), u % 2 == 0, d % 2 == 0
+    ensures g_inv(xn, u / 2, v, a, d / 2, h), h == (G { kd: g.kd / 2, ..g })
+{
+    reveal(g_inv);
+    assert((2 * (d / 2)) * xn + 2 * (u / 2) == g.kd * P);
+    lemma_halve_d(xn, d / 2, u / 2, g.kd);
+    G { kd: g.kd / 2, ..g }
+}
+
+/// v >>= 1; a >>= 1 (both even)
+proof fn lemma_g_halve_v(xn: int, u: int, v: int, a: int, d: int, g: G) -> (h: G)
+    requires g_inv(xn, u, v, a, d, g), v % 2 == 0, a % 2 == 0
+    ensures g_inv(xn, u, v / 2, a / 2, d, h), h == (G { ka: g.ka / 2, ..g })
+{
+    reveal(g_inv);
+    assert((2 * (a / 2)) * xn == 2 * (v / 2) + g.ka * P);
+    lemma_halve_a(xn, a / 2, v / 2, g.ka);
+    G { ka: g.ka / 2, ..g }
+}
+
+proof fn lemma_g_final(xn: int, u: int, a: int, d: int, g: G)
+    requires g_inv(xn, u, 1, a, d, g)
+    ensures a * xn == 1 + g.ka * P, 0 < xn < P
+{
+    reveal(g_inv);
+}
+
+/// facts about machine words used by the loops (closed facts, proved once, carried as invariants)
+pub open spec fn word_facts() -> bool {
+    &&& forall|t: u128| #[trigger] (t & 1) == t % 2
+    &&& forall|t: u128| #[trigger] (t >> 1) == t / 2
+    &&& M == 4611624995532046337u64
+}
+
+proof fn lemma_word_facts()
+    ensures word_facts()
+{
+    assert(forall|t: u128| #[trigger] (t & 1) == t % 2) by (bit_vector);
+    assert(forall|t: u128| #[trigger] (t >> 1) == t / 2) by (bit_vector);
+    assert(M == 4611624995532046337u64);
 }
 
 proof fn lemma_cong_mul(a: int, b: int, c: int, d: int)
@@ -803,111 +914,116 @@ proof fn lemma_inv_final(a: int, xn: int, x: int, r: int, ka: int)
 //@@ before "let mut a: u128 = 0;"
 //@@|    let ghost xn = x as int;
 //@@|    proof {
-//@@|        assert((x as u128) & 1 == 1 <==> (x as u128) % 2 == 1) by (bit_vector);
-//@@|        assert(x & 1 == 1 <==> (x as u128) & 1 == 1) by (bit_vector);
+//@@|        lemma_word_facts();
+//@@|        assert(x & 1 == 1 <==> (x as u128) % 2 == 1) by (bit_vector);
 //@@|    }
 //@@ before "while v != 1"
-//@@|    let ghost mut ka: int = -1;
-//@@|    let ghost mut kd: int = if xn % 2 == 1 { xn } else { xn + 1 };
-//@@|    let ghost mut k: int = 0;
-//@@|    proof {
-//@@|        assert(forall|t: u128| #[trigger] (t & 1) == t % 2) by (bit_vector);
-//@@|        assert(forall|t: u128| #[trigger] (t >> 1) == t / 2) by (bit_vector);
-//@@|        assert(0 * xn == P + (-1) * P) by (nonlinear_arith);
-//@@|        assert((P - 1) * xn + xn == xn * P) by (nonlinear_arith);
-//@@|        assert((P - 1) * xn + (xn + P) == (xn + 1) * P) by (nonlinear_arith);
-//@@|    }
+//@@|    let ghost mut g: G = G { ka: -1, kd: if xn % 2 == 1 { xn } else { xn + 1 }, k: 0 };
+//@@|    proof { lemma_g_init(xn); }
 //@@ loop 1
 //@@|        invariant
-//@@|            forall|t: u128| #[trigger] (t & 1) == t % 2, forall|t: u128| #[trigger] (t >> 1) == t / 2,
-//@@|            0 < xn < P, u % 2 == 1, v % 2 == 1, 1 <= u, 1 <= v, 0 <= k, k + u + v <= 0x1_0000_0000_0000_0000int,
-//@@|            inv_rel(xn, u as int, v as int, a as int, d as int, ka, kd),
-//@@|            a <= (k + 1) * 4611624995532046337, d <= (k + 1) * 4611624995532046337,
+//@@|            word_facts(), 0 < xn < P,
+//@@|            g_inv(xn, u as int, v as int, a as int, d as int, g),
+//@@|            u % 2 == 1, v % 2 == 1,
+//@@|            a <= (g.k + 1) * 4611624995532046337, d <= (g.k + 1) * 4611624995532046337,
 //@@ loop 2
 //@@|            invariant
-//@@|                forall|t: u128| #[trigger] (t & 1) == t % 2, forall|t: u128| #[trigger] (t >> 1) == t / 2,
-//@@|                0 < xn < P, u % 2 == 1, v % 2 == 1, 1 <= u, 1 <= v, 0 <= k, k + u + v <= 0x1_0000_0000_0000_0000int,
-//@@|                inv_rel(xn, u as int, v as int, a as int, d as int, ka, kd),
-//@@|                a <= (k + 1) * 4611624995532046337, d <= (k + 1) * 4611624995532046337,
-//@@ after "d += a;"
+//@@|                word_facts(), 0 < xn < P,
+//@@|                g_inv(xn, u as int, v as int, a as int, d as int, g),
+//@@|                u % 2 == 1, v % 2 == 1,
+//@@|                a <= (g.k + 1) * 4611624995532046337, d <= (g.k + 1) * 4611624995532046337,
+//@@ before "u -= v;"
+//@@|            let ghost (uo, ao, dold) = (u as int, a as int, d as int);
+//@@|            proof { lemma_g_k(xn, uo, v as int, ao, dold, g); }
+//@@ before "while u &"
 //@@|            proof {
-//@@|                let (uo, vo, ao, dold) = ((u + v) as int, v as int, a as int, (d - a) as int);
-//@@|                assert((dold + ao) * xn + (uo - vo) == (kd + ka) * P) by (nonlinear_arith)
-//@@|                    requires ao * xn == vo + ka * P, dold * xn + uo == kd * P;
-//@@|                kd = kd + ka;
-//@@|                k = k + 1;
+//@@|                assert(u as int == uo - v as int && d as int == dold + ao);
+//@@|                g = lemma_g_sub_u(xn, uo, v as int, ao, dold, g);
 //@@|            }
+//@@|            let ghost mut first: bool = true;
 //@@ loop 3
 //@@|                invariant
-//@@|                    forall|t: u128| #[trigger] (t & 1) == t % 2, forall|t: u128| #[trigger] (t >> 1) == t / 2,
-//@@|                    0 < xn < P, v % 2 == 1, 1 <= u, 1 <= v, 1 <= k, k + u + v <= 0x1_0000_0000_0000_0000int,
-//@@|                    inv_rel(xn, u as int, v as int, a as int, d as int, ka, kd),
-//@@|                    a <= k * 4611624995532046337,
-//@@|                    (u % 2 == 0 && d <= 2 * k * 4611624995532046337) || d <= (k + 1) * 4611624995532046337,
-//@@ after "d += M as u128;"
-//@@|                    proof {
-//@@|                        let dold = (d - M as u128) as int;
-//@@|                        assert((dold + P) * xn + (u as int) == (kd + xn) * P) by (nonlinear_arith)
-//@@|                            requires dold * xn + (u as int) == kd * P;
-//@@|                        kd = kd + xn;
-//@@|                    }
-//@@ before "u >>= 1;"
-//@@|                let ghost (u2, d2) = (u, d);
-//@@ after "d >>= 1;"
+//@@|                    word_facts(), 0 < xn < P,
+//@@|                    g_inv(xn, u as int, v as int, a as int, d as int, g),
+//@@|                    first ==> u % 2 == 0,
+//@@|                    1 <= u, v % 2 == 1, 1 <= g.k,
+//@@|                    a <= g.k * 4611624995532046337,
+//@@|                    first ==> d <= 2 * g.k * 4611624995532046337,
+//@@|                    !first ==> d <= (g.k + 1) * 4611624995532046337,
+//@@ before "if d &"
+//@@|                let ghost (uprev, dprev) = (u as int, d as int);
+//@@|                proof { lemma_g_k(xn, uprev, v as int, a as int, dprev, g); }
+//@@ before "u >>="
+//@@|                let ghost dmid = d as int;
 //@@|                proof {
-//@@|                    assert(d2 % 2 == 0 && u2 % 2 == 0);
-//@@|                    assert((2 * (d as int)) * xn + 2 * (u as int) == kd * P);
-//@@|                    lemma_halve_d(xn, d as int, u as int, kd);
-//@@|                    kd = kd / 2;
+//@@|                    if dprev % 2 == 1 {
+//@@|                        assert(dmid == dprev + P);
+//@@|                        g = lemma_g_add_p_d(xn, uprev, v as int, a as int, dprev, g);
+//@@|                    }
+//@@|                    assert(dmid % 2 == 0);
 //@@|                }
-//@@ after "a += d;"
+//@@ loopend 3
+//@@|                proof {
+//@@|                    g = lemma_g_halve_u(xn, uprev, v as int, a as int, dmid, g);
+//@@|                    first = false;
+//@@|                }
+//@@ before "v -= "
+//@@|        let ghost (uo, aold, dd, vo) = (u as int, a as int, d as int, v as int);
+//@@|        proof { lemma_g_k(xn, uo, vo, aold, dd, g); }
+//@@ before "while v &"
 //@@|        proof {
-//@@|            let (uo, vo, aold, dd) = (u as int, (v + u) as int, (a - d) as int, d as int);
-//@@|            assert((aold + dd) * xn == (vo - uo) + (ka + kd) * P) by (nonlinear_arith)
-//@@|                requires aold * xn == vo + ka * P, dd * xn + uo == kd * P;
-//@@|            ka = ka + kd;
-//@@|            k = k + 1;
+//@@|            assert(v as int == vo - uo && a as int == aold + dd);
+//@@|            g = lemma_g_sub_v(xn, uo, vo, aold, dd, g);
 //@@|        }
+//@@|        let ghost mut first: bool = true;
 //@@ loop 4
 //@@|            invariant
-//@@|                forall|t: u128| #[trigger] (t & 1) == t % 2, forall|t: u128| #[trigger] (t >> 1) == t / 2,
-//@@|                0 < xn < P, u % 2 == 1, 1 <= u, 1 <= k, k + u + v <= 0x1_0000_0000_0000_0000int,
-//@@|                inv_rel(xn, u as int, v as int, a as int, d as int, ka, kd),
-//@@|                d <= k * 4611624995532046337,
-//@@|                (v % 2 == 0 && a <= 2 * k * 4611624995532046337) || a <= (k + 1) * 4611624995532046337,
-//@@ after "a += M as u128;"
-//@@|                proof {
-//@@|                    let aold = (a - M as u128) as int;
-//@@|                    assert((aold + P) * xn == (v as int) + (ka + xn) * P) by (nonlinear_arith)
-//@@|                        requires aold * xn == (v as int) + ka * P;
-//@@|                    ka = ka + xn;
-//@@|                }
-//@@ before "v >>= 1;"
-//@@|            let ghost (v2, a2) = (v, a);
-//@@ after "a >>= 1;"
+//@@|                word_facts(), 0 < xn < P,
+//@@|                g_inv(xn, u as int, v as int, a as int, d as int, g),
+//@@|                first ==> v % 2 == 0,
+//@@|                u % 2 == 1, 1 <= g.k,
+//@@|                d <= g.k * 4611624995532046337,
+//@@|                first ==> a <= 2 * g.k * 4611624995532046337,
+//@@|                !first ==> a <= (g.k + 1) * 4611624995532046337,
+//@@ before "if a &"
+//@@|            let ghost (vprev, aprev) = (v as int, a as int);
+//@@|            proof { lemma_g_k(xn, u as int, vprev, aprev, d as int, g); }
+//@@ before "v >>="
+//@@|            let ghost amid = a as int;
 //@@|            proof {
-//@@|                assert(a2 % 2 == 0 && v2 % 2 == 0);
-//@@|                assert((2 * (a as int)) * xn == 2 * (v as int) + ka * P);
-//@@|                lemma_halve_a(xn, a as int, v as int, ka);
-//@@|                ka = ka / 2;
+//@@|                if aprev % 2 == 1 {
+//@@|                    assert(amid == aprev + P);
+//@@|                    g = lemma_g_add_p_a(xn, u as int, vprev, aprev, d as int, g);
+//@@|                }
+//@@|                assert(amid % 2 == 0);
 //@@|            }
+//@@ loopend 4
+//@@|            proof {
+//@@|                g = lemma_g_halve_v(xn, u as int, vprev, amid, d as int, g);
+//@@|                first = false;
+//@@|            }
+//@@ loopafter 1
+//@@|    let ghost mut ka: int = g.ka;
+//@@|    proof { lemma_g_final(xn, u as int, a as int, d as int, g); }
 //@@ loop? 5
-//@@|        invariant 0 < xn < P, (a as int) * xn == 1 + ka * P,
-//@@ after "a -= M as u128;"
+//@@|        invariant word_facts(), 0 < xn < P, (a as int) * xn == 1 + ka * P,
+//@@ before "a -= M"
+//@@|        let ghost aold = a as int;
+//@@ loopend? 5
 //@@|        proof {
-//@@|            let aold = (a + M as u128) as int;
+//@@|            assert(a as int == aold - P);
 //@@|            assert((aold - P) * xn == 1 + (ka - xn) * P) by (nonlinear_arith) requires aold * xn == 1 + ka * P;
 //@@|            ka = ka - xn;
 //@@|        }
-//@@ before "mul(a as u64,"
+//@@ tail
 //@@|    proof {
 //@@|        let ai = a as int;
 //@@|        assert forall|kk: int| 0 <= kk < T64 implies #[trigger] (ai * kk) < P * T64 by {
 //@@|            assert(ai * kk < P * T64) by (nonlinear_arith) requires 0 <= ai <= P, 0 <= kk < T64, P > 0;
 //@@|        }
 //@@|        assert(ai * (R3 as int) < P * T64);
-//@@|        lemma_mul_raw(a as int, R3 as int);
-//@@|        lemma_inv_final(a as int, xn, x0, mul_raw(a as int, R3 as int), ka);
+//@@|        lemma_mul_raw(ai, R3 as int);
+//@@|        lemma_inv_final(ai, xn, x0, mul_raw(ai, R3 as int), ka);
 //@@|    }
 /// C07 for the 62-bit field: inv(0) == 0 (both representatives of zero) and otherwise x * inv(x) == 1 as
 /// residues. Partial correctness: termination of the Euclid loops (it needs gcd(x, P) == 1) is not proved.
